@@ -68,6 +68,18 @@ class Types:
             self.get(key[1:])
             return {'k': 'ptr', 'elem': key[1:]}
         import re
+        if key.startswith('map['):
+            depth = 0
+            for i, ch in enumerate(key):
+                if ch == '[':
+                    depth += 1
+                elif ch == ']':
+                    depth -= 1
+                    if depth == 0:
+                        kt, vt = key[4:i], key[i + 1:]
+                        self.get(kt)
+                        self.get(vt)
+                        return {'k': 'map', 'key': kt, 'elem': vt}
         m = re.match(r'^\[(\d+)\](.*)$', key)
         if m:
             self.get(m.group(2))
